@@ -20,6 +20,7 @@ import time
 
 from harness import core
 from harness import c13lib as L
+from harness import e2e
 from harness.core import esc
 
 TRUSTED = [
@@ -32,9 +33,14 @@ TRUSTED = [
     "dict order, ruamel's YAML dump/load of the --yaml-out file",
     "model domain: doubles with positional repr (0 or 1e-4 <= |x| < 1e16) other than -0.0, ASCII lines; inputs "
     "outside are only checked by the oracle and counted",
+    "end to end (harness/e2e.py, Driver/EndToEnd.lean): the driver's repr(float) (pyRepr: nearest double, shortest "
+    "round-trip decimal) is an input of the report model tied by the byte-for-byte comparison; Gen/IsaDb_x86 is the "
+    "shipped isa/x86.yml (tied by C03's rolesdbcmp); glue domain of Model/Glue.lean (no indexed registers, segment "
+    "extensions, identifier displacements in compared memory operands)",
 ]
 
 QUICK_ARCHS = ["spr", "v2", "zen2", "tx2"]
+E2E_SHIPPED = ["zen2", "spr"]      # shipped x86 models of the end-to-end correspondence (restricted to the reachable forms)
 
 
 # ------------------------------------------------------------------------------------------- plumbing
@@ -444,8 +450,8 @@ def level2_specs(ctx, archs, isa_of, volume):
 # ------------------------------------------------------------------------------------------- run
 def setup(ctx):
     ctx.assumptions = TRUSTED
-    ctx.prove(["ReportConsts"], ["OsacaVerif.Props.C13"])
-    ctx.thorough_recheck(["OsacaVerif.Props.C13"])
+    ctx.prove(["ReportConsts"], ["OsacaVerif.Props.C13", "OsacaVerif.Props.EndToEnd"])
+    ctx.thorough_recheck(["OsacaVerif.Props.C13", "OsacaVerif.Props.EndToEnd"])
     archs = QUICK_ARCHS if ctx.tier == "quick" else core.shipped_archs()
     ctx.env = core.Env("C13", archs=archs)
     ctx.env.activate()
@@ -493,6 +499,12 @@ def run(ctx):
             "analysis errors %d (%.0fs)" % (len(cases), ",".join(archs), c2, f2, len(errs), time.time() - t))
     for e in errs[:3]:
         ctx.log("  analysis error (not judged here): " + e)
+    # ---- level 3: from file text to the report inside the model (Model/EndToEnd.lean, driver op e2e.x86)
+    t = time.time()
+    boost3 = 3 if ctx.broken else 1
+    vol3, svol3 = ((6, 5) if ctx.tier == "quick" else (45, 45))
+    e2e.run_e2e_correspondence(ctx, vol3 * boost3, shipped=[a for a in E2E_SHIPPED if a in archs], shipped_volume=svol3 * boost3)
+    ctx.log("level 3 (file text -> report, model vs command line): %.0fs" % (time.time() - t))
     # ---- coverage
     ev = ctx.counts.get("L1_cases", 0) + ctx.counts.get("L2_cases", 0)
     ctx.cov["evaluations"] = ev
